@@ -70,7 +70,7 @@ func buildBlocks(params *chaincfg.Params, parents []int, bad map[int]bool) []*bt
 		})
 		cb.AddTxOut(&wire.TxOut{Value: value, PkScript: []byte{txscript.OP_TRUE}})
 		hdr := wire.BlockHeader{
-			Version:    0x20000000,
+			Version:    0x20000000 + int32(id%5), // versions differ from block to block
 			PrevBlock:  *blocks[p].Hash(),
 			MerkleRoot: cb.TxHash(),
 			Timestamp:  params.GenesisBlock.Header.Timestamp.Add(time.Duration(int64(h)*600+int64(id)) * time.Second),
@@ -325,6 +325,13 @@ func execHeadersFirst(f []string) string {
 	snap2 := rc2.chain.BestSnapshot()
 	out = append(out, "hdrs="+strings.Join(hdrs, "."), "hloc="+strings.Join(hloc, "."),
 		fmt.Sprintf("blocksonly=%s@%d", idOf(snap2.Hash), snap2.Height))
+	// the caller's block objects (delivered many times, to two chains) are unchanged
+	for i, b := range blocks {
+		if h := b.MsgBlock().BlockHash(); ids[h] != i || len(b.MsgBlock().Transactions) != len(blocks[i].Transactions()) {
+			out = append(out, "inputs-changed")
+			break
+		}
+	}
 	return strings.Join(out, "|")
 }
 
@@ -338,6 +345,7 @@ func genHeadersFirst(g *core.Gen) {
 		g.Case(class, nontrivial, "C17 "+line)
 	}
 	genOrphanPool(g)
+	genAttachPositions(g)
 }
 
 // genOrphanPool: the orphan pool bound (100): 99 / 100 / 101 / more orphans, the oldest one is evicted;
@@ -368,6 +376,17 @@ func genOrphanPool(g *core.Gen) {
 		}
 		ds = append(ds, fmt.Sprintf("b%d", top), fmt.Sprintf("b%d", top-1), fmt.Sprintf("b%d", top-2), "b3", fmt.Sprintf("b%d", top))
 		g.Case("hf-orphan-pool-stale", true, fmt.Sprintf("C17 hf 0:1,1:1,0:%d - mo=%d %s", m, mo, strings.Join(ds, " ")))
+	}
+}
+
+// genAttachPositions: an invalid block at the first / a middle / the last position of a multi-block
+// attach list, after it, and two of them; branch delivered in order (re-organisation at the 4th
+// side block) and in reverse (orphan chain flushed by the fork child).
+func genAttachPositions(g *core.Gen) {
+	for _, bad := range []string{"4", "5", "6", "7", "8", "4.7", "5.6", "6.8", "-"} {
+		g.Case("hf-attach-positions", true, fmt.Sprintf("C17 hf 0:3,0:5 %s b1 b2 b3 h4 b4 b5 b6 b7 b8 h5 h6 h7 h8 b5 b8", bad))
+		g.Case("hf-attach-positions", true, fmt.Sprintf("C17 hf 0:3,0:5 %s b1 b2 b3 b8 b7 b6 b5 h8 b4 h4 h5 h6 h7 h8 b6", bad))
+		g.Case("hf-attach-positions", true, fmt.Sprintf("C17 hf 0:3,0:2,5:3,5:4 %s b1 b2 b3 b4 b5 b6 b7 b9 b10 b11 b8 b12 h8 h12 h7", bad))
 	}
 }
 
